@@ -65,32 +65,38 @@ func flavour(repl bool) string {
 // buildDefs draws definitions in a mixed order (generators may use earlier pure functions and vice versa).
 func buildDefs(g *gen.G, sw Swarm) []string {
 	var srcs []string
+	srcs = append(srcs, gen.PreludeSrc[0]) // deep: generated bodies may call it
 	if sw.Prelude {
-		srcs = append(srcs, gen.PreludeSrc...)
+		srcs = append(srcs, gen.PreludeSrc[1:]...)
+	}
+	add := func(d gen.Def) {
+		srcs = append(srcs, g.Pre...)
+		g.Pre = nil
+		srcs = append(srcs, d.Src)
 	}
 	np, ng, npr := sw.NPure, sw.NGen, sw.NProc
 	for np+ng+npr > 0 {
 		k := g.T.Draw(3)
 		switch {
 		case k == 0 && np > 0:
-			srcs = append(srcs, g.DefPure().Src)
+			add(g.DefPure())
 			np--
 		case k == 1 && ng > 0:
-			srcs = append(srcs, g.DefGen().Src)
+			add(g.DefGen())
 			ng--
 		case k == 2 && npr > 0:
-			srcs = append(srcs, g.DefProc().Src)
+			add(g.DefProc())
 			npr--
 		default:
 			switch {
 			case np > 0:
-				srcs = append(srcs, g.DefPure().Src)
+				add(g.DefPure())
 				np--
 			case ng > 0:
-				srcs = append(srcs, g.DefGen().Src)
+				add(g.DefGen())
 				ng--
 			default:
-				srcs = append(srcs, g.DefProc().Src)
+				add(g.DefProc())
 				npr--
 			}
 		}
